@@ -153,7 +153,7 @@ def build_lines(cases: list[dict]) -> list[str]:
         r = c["r"]
         if "fail" in r:
             continue
-        seed_doc = doc(c["text"])
+        seed_doc = doc(r["text0"])      # the state the in-memory object itself rebuilds to before any operation
         steps = []
         prev_text = r["text0"]
         canon = r["text0"] == c["text"]
@@ -214,7 +214,7 @@ def judge(cases: list[dict], run: Run, shards: int = 8) -> dict:
 def step_key(clause: str, c: dict, k: int) -> str:
     """Signature of a violating step: clause, operation, selector class, path class, wrappers, #layers."""
     op = c["ops"][k]
-    pre = doc(c["text"]) if k == 0 else c["events"][k - 1]["post"]
+    pre = doc(c["r"]["text0"]) if k == 0 else c["events"][k - 1]["post"]
     sel = op["sel"]
     if pre["shape"] != "ok":
         pc = "shape=" + pre["shape"]
